@@ -928,6 +928,19 @@ theorem C20_pw_status_disorderly_counterexample :
     ∧ (recorded [.writeHeader 200, .writeHeader 500] = 500 ∧ (wire [.writeHeader 200, .writeHeader 500]).final = 200)
     ∧ (recorded [.write [1], .writeHeader 404] = 404 ∧ (wire [.write [1], .writeHeader 404]).final = 200) := by decide
 
+/-- **Link to the stack model.**  `Stack.Caps.proxy` — what `Model/Stack.lean` says a layer that wraps the writer in a ProxyWriter
+offers inward — is what the call-level model computes: both interfaces are always there, `Hijack` succeeds and a `Flush` reaches
+the wrapped writer exactly when the wrapped writer can do it. -/
+theorem C20_pw_caps_link (c : Caps) (p : PW) :
+    (Caps.proxy c).flushIface = true ∧ (Caps.proxy c).hijackIface = true
+    ∧ (Caps.proxy c).canHijack = (call ⟨c.canFlush, c.canHijack⟩ [p] .hijack).2.2
+    ∧ ((Caps.proxy c).canFlush = true ↔ (call ⟨c.canFlush, c.canHijack⟩ [p] .flush).2.1 = [.flush]) := by
+  refine ⟨rfl, rfl, ?_, ?_⟩
+  · simp [Caps.proxy, Caps.canHijack, call, reach]
+    cases c.hijackIface <;> cases c.hijackWorks <;> simp
+  · simp [Caps.proxy, Caps.canFlush, call, reach]
+    cases c.flushIface <;> cases c.flushWorks <;> simp
+
 /-- non-vacuity: a three-deep nest over a writer without `Flusher`, a handler that sends 103, then 201, an empty and a non-empty
 `Write`, flushes and tries to hijack -/
 example :
